@@ -228,6 +228,45 @@ pub fn check_sentence_pub(sub: &str, text: &str, docs: &[(String, String)], st: 
     check_sentence(sub, text, docs, st)
 }
 
+const REPEAT_DOC: &str = "{\"a\":[{\"a\":[[1,2],[3]],\"b\":[1,2]},{\"b\":[3]},[4,[5]]],\"b\":[[1],[2]],\"k\":1}";
+
+/// Enumerated repeat family: shape and parenthesisation relations at every count.
+fn repeats(env: &Env, st: &mut Stats) -> Vec<Failure> {
+    let mut fails = vec![];
+    let docs = vec![(String::new(), REPEAT_DOC.to_string())];
+    for form in 0..REPEAT_FORMS.len() {
+        // the explicit parenthesisation is quadratic in the count: sample the large counts
+        for k in repeat_counts(env.tier == Tier::Thorough) {
+            if k > 300 && k % 7 != 0 && !(k % 64 <= 2 || k % 64 >= 62) {
+                continue;
+            }
+            let text = repeat_text(form, k);
+            st.eval();
+            match check_sentence("repeats", &text, &docs, st) {
+                Ok(true) => {
+                    if k >= 17 {
+                        st.nontrivial(&format!("repeat:{}:{}", form, k));
+                    }
+                }
+                Ok(false) => {}
+                Err(mut f) => {
+                    f.case = json!({"form": form, "count": k, "expression_prefix": repeat_text(form, 3)});
+                    fails.push(f);
+                    break;
+                }
+            }
+        }
+    }
+    st.sample(|| json!({"repeat_form": repeat_text(8, 4), "counts": "0..=600"}));
+    fails
+}
+
+fn replay_repeat(case: &Value, _env: &Env) -> CaseResult {
+    let text = repeat_text(case["form"].as_u64().unwrap_or(0) as usize, case["count"].as_u64().unwrap_or(0) as usize);
+    let mut st = Stats::new();
+    check_sentence("repeats", &text, &[(String::new(), REPEAT_DOC.to_string())], &mut st).map(|_| ())
+}
+
 fn fuzz_run(env: &Env, st: &mut Stats) -> Vec<Failure> {
     crate::fuzzing::campaign("syntax_diff", env, st, 120)
 }
@@ -256,6 +295,7 @@ pub fn property() -> Property {
         minimise: None,
         subs: vec![
             Sub::Custom(CustomSub { name: "corpus", run: corpus_all, replay: replay_text }),
+            Sub::Custom(CustomSub { name: "repeats", run: repeats, replay: replay_repeat }),
             Sub::Bytes(BytesSub { name: "tree-shape", f: tree_shape, max_len: 1500, quick: Budget { threads: 8, cases: 3000 }, thorough: Budget { threads: 16, cases: 100_000 }, keep_unreproducible: false }),
             Sub::Bytes(BytesSub { name: "unparen", f: unparen, max_len: 1500, quick: Budget { threads: 8, cases: 4000 }, thorough: Budget { threads: 16, cases: 150_000 }, keep_unreproducible: false }),
             Sub::Custom(CustomSub { name: "fuzz-syntax_diff", run: fuzz_run, replay: fuzz_replay }),
